@@ -64,9 +64,13 @@ def main():
             sh("git -C %s clean -fdq src" % REPO)
         results[sid] = {"applied": True, "property": meta["property"], "checks": out,
                         "detected": any(v["violation"] for v in out.values())}
+        if meta.get("superseded"):
+            # a repair made this change harmless (its demonstration passes with the change): the checks must be QUIET
+            results[sid]["superseded"] = meta["superseded"]
+            results[sid]["false_alarm_on_harmless_change"] = results[sid]["detected"]
         with open(res_path, "w") as f:
             json.dump(results, f, indent=1)
-    nd = [k for k, v in results.items() if v.get("applied") and not v.get("detected")]
+    nd = [k for k, v in results.items() if v.get("applied") and not v.get("detected") and not v.get("superseded")]
     print("seeded: %d run, %d not detected %s" % (len(ids), len(nd), nd))
 
 
